@@ -42,18 +42,21 @@ var (
 	aOtherId  = Byte32{7, 7, 7, 31: 0}
 )
 
-type aTx struct {
-	id       string
+type aMsg struct {
 	truth    *msgTruth
-	block    *simBlock
-	orphaned bool
-	reincl   *simBlock
 	expect   bool // must eventually be forwarded by the polling path
-	why      string
 	hold     bool // must never be forwarded (too recent on the wall clock)
+	attestOK bool
+	kind     string
+}
+
+type aTx struct {
+	id        string
+	msgs      []*aMsg
+	block     *simBlock
+	orphaned  bool
+	reincl    *simBlock
 	lookAlike bool
-	attestOK  bool
-	kind      string
 }
 
 type aArrival struct {
@@ -207,69 +210,92 @@ func runAlph(c aCase, o aOracles) (*vh.Violation, vh.Outcome) {
 		return b
 	}
 	faulty, reobs, hostile, appendedMidFetch := false, false, false, false
+	nSeq := 0
+	floorOf := func(m *aMsg) int64 {
+		f := int64(m.truth.CL)
+		if c.Mainnet && m.kind == "transfer" && f < 205 {
+			f = 205
+		}
+		return f
+	}
 	mkEmit := func(i int, x aOp) {
-		t := &msgTruth{Sender: aBridgeId, TC: uint16(x.D % 5), Seq: uint64(len(txs)), Nonce: uint32(x.D), CL: uint8(x.B), WellForm: true}
-		tx := &aTx{id: simHash("tx", len(txs)+1), truth: t, attestOK: true}
-		if x.A%2 == 1 {
-			t.Sender = aOtherId // foreign caller
-			hostile = true
+		tx := &aTx{id: simHash("tx", len(txs)+1)}
+		n := 1 + x.D%3 // a transaction can make the governance contract publish several messages
+		if x.K == "burst" {
+			n = 1
 		}
-		tokenId := Byte32{0xaa, byte(len(txs)), 31: 0}
-		tokenAddr, _ := ToContractAddress(tokenId.ToHex())
-		switch x.C % 6 {
-		case 0:
-			t.Payload = append([]byte{TransferTokenPayloadId}, vh.Expand(uint64(x.D), 100)...)
-			tx.kind = "transfer"
-		case 1:
-			t.Payload = attestPayload(tokenId, 8, "SYM", "Token Name")
-			sim.tokens[*tokenAddr] = tokenBehaviour{Mode: "ok", Decimals: 8, Symbol: "SYM", Name: "Token Name"}
-			tx.kind = "attest"
-		case 2:
-			t.Payload = attestPayload(tokenId, 8, "SYM", "Token Name")
-			sim.tokens[*tokenAddr] = tokenBehaviour{Mode: "ok", Decimals: 9, Symbol: "SYM", Name: "Token Name"} // the token says otherwise
-			tx.attestOK = false
-			tx.kind = "attest-mismatch"
-			hostile = true
-		case 3:
-			t.Payload = attestPayload(tokenId, 8, "SYM", "Token Name")
-			sim.tokens[*tokenAddr] = tokenBehaviour{Mode: []string{"fail-all", "fail-0", "fail-1", "fail-2", "two-results", "no-returns-1", "wrong-type"}[x.D%7]}
-			tx.attestOK = false
-			tx.kind = "attest-broken-token"
-			hostile = true
-		case 4:
-			t.Payload = append([]byte{5}, vh.Expand(uint64(x.D), 20)...)
-			tx.kind = "other"
-		case 5:
-			t.Payload = []byte{}
-			tx.kind = "empty"
-		}
-		// wall-clock age of the block relative to the floor that applies to this message
-		floorBlocks := int64(t.CL)
-		if c.Mainnet && tx.kind == "transfer" && floorBlocks < 205 {
-			floorBlocks = 205
-		}
-		age := floorBlocks*BlockTimeMs + 60000
-		if x.A/2%4 == 3 {
-			age = floorBlocks*BlockTimeMs - 60000 // too recent: must be held
-			if age < 0 {
-				age = -60000
+		maxAge, tooRecent := int64(0), false
+		for k := 0; k < n; k++ {
+			t := &msgTruth{Sender: aBridgeId, TC: uint16((x.D + k) % 5), Seq: uint64(nSeq), Nonce: uint32(x.D + k), CL: uint8([]int{x.B, (x.B*5 + x.D) % 256, x.D % 3}[k]), WellForm: true}
+			nSeq++
+			m := &aMsg{truth: t, attestOK: true}
+			if (x.A+k)%2 == 1 && (k == 0 || x.D%2 == 0) {
+				t.Sender = aOtherId // foreign caller
+				hostile = true
 			}
-			tx.hold = true
+			tokenId := Byte32{0xaa, byte(len(txs)), byte(k), 31: 0}
+			tokenAddr, _ := ToContractAddress(tokenId.ToHex())
+			switch (x.C + k*(1+x.D%4)) % 6 {
+			case 0:
+				t.Payload = append([]byte{TransferTokenPayloadId}, vh.Expand(uint64(x.D+k), 100)...)
+				m.kind = "transfer"
+			case 1:
+				t.Payload = attestPayload(tokenId, 8, "SYM", "Token Name")
+				sim.tokens[*tokenAddr] = tokenBehaviour{Mode: "ok", Decimals: 8, Symbol: "SYM", Name: "Token Name"}
+				m.kind = "attest"
+			case 2:
+				t.Payload = attestPayload(tokenId, 8, "SYM", "Token Name")
+				sim.tokens[*tokenAddr] = tokenBehaviour{Mode: "ok", Decimals: 9, Symbol: "SYM", Name: "Token Name"} // the token says otherwise
+				m.attestOK = false
+				m.kind = "attest-mismatch"
+				hostile = true
+			case 3:
+				t.Payload = attestPayload(tokenId, 8, "SYM", "Token Name")
+				sim.tokens[*tokenAddr] = tokenBehaviour{Mode: []string{"fail-all", "fail-0", "fail-1", "fail-2", "two-results", "no-returns-1", "wrong-type"}[(x.D+k)%7]}
+				m.attestOK = false
+				m.kind = "attest-broken-token"
+				hostile = true
+			case 4:
+				t.Payload = append([]byte{5}, vh.Expand(uint64(x.D+k), 20)...)
+				m.kind = "other"
+			case 5:
+				t.Payload = []byte{}
+				m.kind = "empty"
+			}
+			if f := floorOf(m) * BlockTimeMs; f > maxAge {
+				maxAge = f
+			}
+			tx.msgs = append(tx.msgs, m)
+		}
+		// wall-clock age of the block: either old enough for every message of the transaction, or (hold) too recent
+		// for those with the highest floor
+		age := maxAge + 60000
+		if x.A/2%4 == 3 {
+			age = maxAge - 60000
+			tooRecent = true
 		}
 		tx.block = newBlock(age)
-		ev := &simEvent{Contract: sim.govAddr, BlockHash: tx.block.Hash, TxId: tx.id, EventIndex: 0, Fields: msgFields(t), Truth: t}
-		sim.govEvents = append(sim.govEvents, ev)
-		sim.txEvents[tx.id] = append(sim.txEvents[tx.id], ev)
+		for _, m := range tx.msgs {
+			if tooRecent && floorOf(m)*BlockTimeMs > age {
+				m.hold = true
+			}
+			if floorOf(m)*BlockTimeMs > age-30000 && floorOf(m)*BlockTimeMs < age+30000 {
+				m.hold = true // never within 30 s of a threshold; cannot happen with the 60 s margins, kept as a guard
+			}
+			ev := &simEvent{Contract: sim.govAddr, BlockHash: tx.block.Hash, TxId: tx.id, EventIndex: 0, Fields: msgFields(m.truth), Truth: m.truth}
+			sim.govEvents = append(sim.govEvents, ev)
+			sim.txEvents[tx.id] = append(sim.txEvents[tx.id], ev)
+			m.expect = m.truth.Sender == aBridgeId && m.attestOK && !m.hold
+		}
 		sim.txBlock[tx.id] = tx.block.Hash
 		if x.A/8%3 == 1 {
 			// a look-alike: another contract in the same transaction emits event 0 with the same field shape,
 			// claiming the token bridge as sender
-			fake := &msgTruth{Sender: aBridgeId, TC: t.TC, Seq: 900000 + uint64(len(txs)), Nonce: 7, Payload: append([]byte{TransferTokenPayloadId}, 1, 2, 3), CL: 0}
+			fake := &msgTruth{Sender: aBridgeId, TC: 1, Seq: 900000 + uint64(len(txs)), Nonce: 7, Payload: append([]byte{TransferTokenPayloadId}, 1, 2, 3), CL: 0}
 			sim.txEvents[tx.id] = append(sim.txEvents[tx.id], &simEvent{Contract: *otherAddr, BlockHash: tx.block.Hash, TxId: tx.id, EventIndex: 0, Fields: msgFields(fake), Truth: fake})
 			tx.lookAlike = true
 			hostile = true
 		}
-		tx.expect = t.Sender == aBridgeId && tx.attestOK && !tx.hold
 		txs = append(txs, tx)
 	}
 	malformedFields := func(k int) []jval {
@@ -337,21 +363,27 @@ func runAlph(c aCase, o aOracles) (*vh.Violation, vh.Outcome) {
 				if !t.orphaned {
 					t.block.Main = false
 					t.orphaned = true
-					t.expect = false
+					for _, m := range t.msgs {
+						m.expect = false
+					}
 					if x.B%2 == 1 {
-						// the transaction is included again in a block of the new main chain
-						floorBlocks := int64(t.truth.CL)
-						if c.Mainnet && t.kind == "transfer" && floorBlocks < 205 {
-							floorBlocks = 205
+						// the transaction is included again in a block of the new main chain, old enough for all its messages
+						maxAge := int64(0)
+						for _, m := range t.msgs {
+							if f := floorOf(m) * BlockTimeMs; f > maxAge {
+								maxAge = f
+							}
 						}
-						nb := newBlock(floorBlocks*BlockTimeMs + 61000 + int64(len(sim.blocks))) // a timestamp of its own: tells the two inclusions apart
+						nb := newBlock(maxAge + 61000 + int64(len(sim.blocks))) // a timestamp of its own: tells the two inclusions apart
 						t.reincl = nb
-						ev := &simEvent{Contract: sim.govAddr, BlockHash: nb.Hash, TxId: t.id, EventIndex: 0, Fields: msgFields(t.truth), Truth: t.truth}
-						sim.govEvents = append(sim.govEvents, ev)
-						sim.txEvents[t.id] = append(sim.txEvents[t.id], ev)
+						for _, m := range t.msgs {
+							ev := &simEvent{Contract: sim.govAddr, BlockHash: nb.Hash, TxId: t.id, EventIndex: 0, Fields: msgFields(m.truth), Truth: m.truth}
+							sim.govEvents = append(sim.govEvents, ev)
+							sim.txEvents[t.id] = append(sim.txEvents[t.id], ev)
+							m.hold = false
+							m.expect = m.truth.Sender == aBridgeId && m.attestOK
+						}
 						sim.txBlock[t.id] = nb.Hash
-						t.expect = t.truth.Sender == aBridgeId && t.attestOK
-						t.hold = false
 					}
 				}
 			}
@@ -444,18 +476,24 @@ func runAlph(c aCase, o aOracles) (*vh.Violation, vh.Outcome) {
 		if t == nil {
 			return vh.V("C08/unknown-event-forwarded", "%s path forwarded a message for tx %s that carries no token-bridge message", path, txid[:12]), out
 		}
-		if m.Sequence != t.truth.Seq || !bytes.Equal(m.Payload, t.truth.Payload) {
+		var am *aMsg
+		for _, x := range t.msgs {
+			if x.truth.Seq == m.Sequence && bytes.Equal(m.Payload, x.truth.Payload) {
+				am = x
+			}
+		}
+		if am == nil {
 			if t.lookAlike && m.Sequence >= 900000 {
 				return vh.V("C08/look-alike-event-forwarded", "op %d (%s path): an event emitted by another contract in tx %s (event index 0, sender field forged to the token bridge) was forwarded as a message", a.op, path, txid[:12]), out
 			}
-			return vh.V("C08/unknown-event-forwarded", "op %d (%s path): forwarded message (sequence %d) is not the governance event of tx %s", a.op, path, m.Sequence, txid[:12]), out
+			return vh.V("C08/unknown-event-forwarded", "op %d (%s path): forwarded message (sequence %d) is not a governance event of tx %s", a.op, path, m.Sequence, txid[:12]), out
 		}
 		nForwarded++
-		if t.truth.Sender != aBridgeId {
+		if am.truth.Sender != aBridgeId {
 			return vh.V("C08/foreign-caller-forwarded", "op %d (%s path): a message published by a contract other than the token bridge was forwarded", a.op, path), out
 		}
-		if !t.attestOK {
-			return vh.V("C08/unverified-attestation-forwarded", "op %d (%s path): an attestation (%s) whose metadata the token contract does not confirm was forwarded", a.op, path, t.kind), out
+		if !am.attestOK {
+			return vh.V("C08/unverified-attestation-forwarded", "op %d (%s path): an attestation (%s) whose metadata the token contract does not confirm was forwarded", a.op, path, am.kind), out
 		}
 		// which block? the one whose timestamp the message carries
 		blk := t.block
@@ -479,11 +517,11 @@ func runAlph(c aCase, o aOracles) (*vh.Violation, vh.Outcome) {
 		if !haveMain || !lastMain {
 			return vh.V("C08/orphaned-block-event-forwarded", "op %d (%s path): message of tx %s forwarded from block %s although the node's last main-chain answer for that block before the hand-off was %v (asked: %v)", a.op, path, txid[:12], blk.Hash[:10], lastMain, haveMain), out
 		}
-		if blk.Height+int32(t.truth.CL) > lastHeight {
-			return vh.V("C08/forwarded-too-shallow", "op %d (%s path): message of tx %s (block height %d, consistency level %d) forwarded when the last height answer was %d", a.op, path, txid[:12], blk.Height, t.truth.CL, lastHeight), out
+		if blk.Height+int32(am.truth.CL) > lastHeight {
+			return vh.V("C08/forwarded-too-shallow", "op %d (%s path): message of tx %s (block height %d, consistency level %d) forwarded when the last height answer was %d", a.op, path, txid[:12], blk.Height, am.truth.CL, lastHeight), out
 		}
-		if c.Mainnet && t.kind == "transfer" {
-			floor := int64(t.truth.CL)
+		if c.Mainnet && am.kind == "transfer" {
+			floor := int64(am.truth.CL)
 			if floor < 205 {
 				floor = 205
 			}
@@ -497,24 +535,27 @@ func runAlph(c aCase, o aOracles) (*vh.Violation, vh.Outcome) {
 			}
 		}
 		if !isReobs {
-			forwarded[txid+"/"+blk.Hash]++
-			if forwarded[txid+"/"+blk.Hash] > 1 {
-				return vh.V("C08/forwarded-twice", "the polling path forwarded the event of tx %s in block %s twice", txid[:12], blk.Hash[:10]), out
+			key := fmt.Sprintf("%s/%s/%d", txid, blk.Hash, m.Sequence)
+			forwarded[key]++
+			if forwarded[key] > 1 {
+				return vh.V(o.pfx+"/forwarded-twice", "the polling path forwarded message %d of tx %s in block %s twice", m.Sequence, txid[:12], blk.Hash[:10]), out
 			}
 		}
 	}
 	// ---------------------------------------------------------------- bounded liveness (C09)
 	if o.liveness && !faulty && !reobs && exited == "" {
 		for _, t := range txs {
-			if !t.expect {
-				continue
-			}
 			blk := t.block
 			if t.reincl != nil {
 				blk = t.reincl
 			}
-			if forwarded[t.id+"/"+blk.Hash] != 1 {
-				return vh.V("C09/message-never-observed", "the %s message of tx %s (token bridge caller, block %s on the main chain at height %d, consistency level %d, chain height now %d, old enough) was never handed to the signing pipeline", t.kind, t.id[:12], blk.Hash[:10], blk.Height, t.truth.CL, sim.height), out
+			for _, m := range t.msgs {
+				if !m.expect {
+					continue
+				}
+				if forwarded[fmt.Sprintf("%s/%s/%d", t.id, blk.Hash, m.truth.Seq)] != 1 {
+					return vh.V("C09/message-never-observed", "the %s message (sequence %d, one of %d messages) of tx %s (token bridge caller, block %s on the main chain at height %d, consistency level %d, chain height now %d, old enough) was never handed to the signing pipeline", m.kind, m.truth.Seq, len(t.msgs), t.id[:12], blk.Hash[:10], blk.Height, m.truth.CL, sim.height), out
+				}
 			}
 		}
 	}
